@@ -75,6 +75,7 @@ Fixpoint lookup {A} (k : N) (m : list (N * A)) : option A :=
   | (k', v) :: r => if k =? k' then Some v else lookup k r
   end.
 
+Set Implicit Arguments.
 Section Model.
   Variables PK Sig Msg Dig Prf : Type.
 
@@ -326,3 +327,4 @@ Section Model.
            | Some lnpw => verify (mkVerifier (c_strength c) lnpw (c_voters c)) (c_last c) msg s
            end.
 End Model.
+Unset Implicit Arguments.
